@@ -72,23 +72,24 @@ EvEntries(items, i, lv) ==
         ELSE <<E(KeyVal(items[i].k, lv), Ev(items[i].v, lv))>>)
        \o EvEntries(items, i + 1, lv)
 
-\* first clause on which observation `obs` differs from (outcome, expect); "" if none
-Mismatch(obs, outcome, expect, path, lv) ==
-  IF obs.o # outcome THEN "outcome"
-  ELSE IF outcome # "values" THEN ""
+\* first clause on which observation `obs` differs from (outcomes, expect); "" if none
+Mismatch(obs, outcomes, expect, path, lv) ==
+  IF obs.o \notin outcomes THEN "outcome"
+  ELSE IF obs.o # "values" THEN ""
   ELSE IF ~Same(L(EvItems(expect.args, 1, lv)), L(obs.args)) THEN "args"
   ELSE IF ~Same(D(Dedupe(EvEntries(expect.kwargs, 1, lv))), D(obs.kwargs)) THEN "kwargs"
   ELSE IF path = "probe" /\ expect.flags # {obs.flags[i] : i \in 1..Len(obs.flags)} THEN "flags"
   ELSE ""
 
 PathStatus(e, obs, path) ==
-  IF Invalid(e.args) THEN (IF obs.o = "tse" THEN "ok" ELSE "bad:invalid_not_rejected")
-  ELSE LET m == Mismatch(obs, "values", Denote(e.args), path, e.lv) IN
-       IF m = "" THEN "ok"
-       ELSE LET ds == Devs(e.args)
-                hits == {k \in 1..Len(ds) : /\ ds[k].path \in {"both", path}
-                                            /\ Mismatch(obs, ds[k].outcome, ds[k].expect, path, e.lv) = ""} IN
-            IF hits # {} THEN "dev:" \o ds[CHOOSE k \in hits : TRUE].name ELSE "bad:" \o m
+  LET inv == Invalid(e.args)
+      m == Mismatch(obs, Outcomes(e.args, e.style), IF inv THEN NoValues ELSE Denote(e.args), path, e.lv) IN
+  IF m = "" THEN "ok"
+  ELSE LET ds == Devs(e.args)
+           hits == {k \in 1..Len(ds) : /\ ds[k].path \in {"both", path}
+                                       /\ Mismatch(obs, ds[k].outcomes, ds[k].expect, path, e.lv) = ""} IN
+       IF hits # {} THEN "dev:" \o ds[CHOOSE k \in hits : TRUE].name
+       ELSE IF inv THEN "bad:invalid_not_rejected" ELSE "bad:" \o m
 
 Verdict(e) ==
   <<IF Text(e.args, e.style) = e.text THEN "ok" ELSE "bad:layout",
@@ -97,8 +98,8 @@ Verdict(e) ==
 TrInit == tid = 1
 TrNext == /\ tid <= Len(Traces)
           /\ LET v == Verdict(Traces[tid]) IN
-             IF v = <<"ok", "ok", "ok">> THEN PrintT(<<"ACCEPT", Traces[tid].id>>)
-             ELSE PrintT(<<"REJECT", Traces[tid].id, 0, v>>)
+             IF v = <<"ok", "ok", "ok">> THEN PrintT("ACCEPT " \o ToString(Traces[tid].id))
+             ELSE PrintT("REJECT " \o ToString(Traces[tid].id) \o " " \o v[1] \o " " \o v[2] \o " " \o v[3])
           /\ tid' = tid + 1
 TrSpec == TrInit /\ [][TrNext]_tid
 =============================================================================
